@@ -470,6 +470,39 @@ def check_conj_new(ctx, lib, rule, fn_suffix, goalpath, node_suffix):
             ctx.expect(okid, rule, key + "|shortcut", site, "early return of %s under %s is not an identity of conjunction" % (show(rv, maxdepth=4), show(c, maxdepth=4)))
 
 
+def check_disj_new(ctx, lib, rule, fn_suffix, node_suffix):
+    """Disj::new(g1, g2): a node holding g1 as goal_1 and g2 as goal_2. The only sound constant
+    folding of a disjunction (as a multiset of answers) is dropping a `fail` operand; `succeed or g`
+    is NOT `succeed` (the answers of g would be lost)."""
+    fn = getfn(ctx, lib, rule, fn_suffix)
+    if not fn:
+        return
+    t = plain_evaluator(lib).fn_term(fn)
+    key = fn["npath"]
+    site = site_of(fn)
+    eff, res = tables.flatten(t)
+    node = [s for s in sym.subterms(res) if s[0] == "struct" and suffix_match(s[1], node_suffix)]
+    good = False
+    if len(node) == 1:
+        f = dict(node[0][2])
+        good = f.get("goal_1", ("", -1))[:2] == ("param", 0) and f.get("goal_2", ("", -1))[:2] == ("param", 1)
+    ctx.expect(good, rule, key + "|node", site, "the disjunction node must keep parameter 0 as goal_1 and parameter 1 as goal_2; found %s" % show(res, maxdepth=6)[:240])
+    for e in eff:
+        if tables.harmless_effect(e):
+            continue
+        if e[0] != "if":
+            ctx.violation(rule, key + "|stmt", site, "unexpected statement %s" % show(e, maxdepth=4)[:160])
+            continue
+        rets = [s for s in sym.subterms(e[2]) if s[0] == "ret"]
+        if not rets:
+            continue
+        rv = rets[0][1]
+        okid = False
+        if rv is not None and rv[0] == "param" and rv[1] in (0, 1):
+            okid = unify(pat("is_fail(@%d)" % (1 - rv[1])), e[1]) is not None
+        ctx.expect(okid, rule, key + "|shortcut", site, "early return of %s under %s is not an identity of disjunction (only `fail or g = g` keeps the answer multiset)" % (show(rv, maxdepth=4) if rv else "()", show(e[1], maxdepth=4)))
+
+
 def census(ctx, lib, rule, allowed, floors):
     """Every construction site of the listed Lazy variants lies in a function covered by a table."""
     ev = evaluator(lib)
